@@ -78,10 +78,19 @@ class C17(PropBase):
             else:
                 declared = rng.choice(gen.boundary_lengths(txdl, pre) + [0, ff + 5 * c + 3])
                 actual = max(0, declared + rng.choice([0, 0, 0, -1, -2, -c, -c - 1, 1, 5, c, -declared]))
-            ops.append({'op': 'send', 'i': 0, 'id': rid, 'gen': (declared, gen.rand_payload(rng, actual))})
+            sop = {'op': 'send', 'i': 0, 'id': rid, 'gen': (declared, gen.rand_payload(rng, actual))}
+            if rng.random() < 0.06:
+                # a generator that is already finished when send() gets it: it yields nothing
+                sop['gen_pre'] = 'closed'
+                sop['gen'] = (declared, b'')
+            ops.append(sop)
             bs = rng.choice([0, 1, 2, 8])
             nframes = min(declared, actual + c) // c + 2
+            k0 = len(ops)
             coop_rounds(ops, a, nframes, bs, rng.choice([0, 0, 1]))
+            if rng.random() < 0.12 and len(ops) > k0 + 1:
+                # the owner closes the generator while the layer is still sending from it (between two passes): nothing more comes out
+                ops.insert(rng.randrange(k0, len(ops)), {'op': 'genclose', 'i': 0, 'id': rid})
             if declared > 10**5:
                 ops.append({'op': 'stop_sending', 'i': 0})
         return {'ops': ops}
@@ -105,6 +114,10 @@ class C17(PropBase):
         order = []
         # scenarios run one request to its end before the next send(): events belong to the latest accepted request
         for r in trace.records(lines_in, impl_out):
+            if r.op == 'genclose':
+                rid_c = int(r.toks[2])
+                d_c, a_c = info[rid_c]
+                info[rid_c] = (d_c, bytes(a_c)[:pulled.get(rid_c, 0)])       # what the generator yielded before it was closed is all there is
             if r.op == 'send' and r.result == 'ok':
                 cur = int(r.toks[2])
                 order.append(cur)
